@@ -342,10 +342,48 @@ def shards(tier, seed):
     for j in range(nr):
         out.append({'name': f'rand{j}', 'what': 'rand', 'count': lim['nrand'] // nr,
                     'maxdepth': lim['maxdepth']})
+    out.append({'name': 'sched', 'what': 'sched', 'runs': 30 if tier == 'quick' else 600})
     return out
 
 
+def run_sched(spec, res):
+    """"At most one prefetch buffer ahead" under adversarial schedules: the
+    parallel stages are run under the controlled scheduler (out-of-order
+    completion, a starved consumer, a slow head task) and the number of function
+    applications started beyond the results handed over is read off the event
+    log."""
+    import random
+    from .. import conc, concshards as cs, detsched as D
+    conc.env()
+    rng = rng_for(spec['seed'], PROPERTY, spec['name'])
+    for entry, n, b, w in (('lpm', 9, 2, 2), ('lpm', 12, 3, 3), ('parmap', 12, 4, 3),
+                           ('pft', 9, 2, 2), ('pft', 12, 3, 3), ('pft', 12, 4, 3),
+                           ('pf1', 9, 2, 1), ('stp', 9, 1, 1)):
+        sc = cs.make(entry, n, b, w)
+        for i in range(spec['runs']):
+            seed = rng.randrange(1 << 30)
+            name = ('youngest', 'starve', 'random', 'pct', 'sticky')[i % 5]
+            r = conc.run(sc, cs.chooser_for(name, random.Random(seed)))
+            if r['deadlock'] or r['steplimit']:
+                continue
+            mp, ms = conc.readahead(sc, r)
+            res.count('scheduled_executions')
+            res.case(('sched', conc.trace_hash(r['events'])), r['max_enabled'] >= 2)
+            res.maximum(f'started_minus_delivered:{entry}:b{b}:w{w}', ms)
+            limit = b + 2 if entry in ('pf1', 'stp') else b
+            if ms > limit or mp > b + 2:
+                res.violation('ran-ahead-of-demand',
+                              {'scenario': sc, 'schedule': (name, seed),
+                               'choices': r['choices'][:300]},
+                              {'started_minus_delivered': ms, 'pulled_minus_delivered': mp,
+                               'buffer_size': b},
+                              sig={'last_op': entry, 'buffered': True, 'harness': 'scheduler'})
+                break
+
+
 def run_shard(spec, res):
+    if spec['what'] == 'sched':
+        return run_sched(spec, res)
     ld = import_lazy_dataset()
     if spec['what'] == 'exh':
         cnt = 0
@@ -375,5 +413,15 @@ def finalize(res, tier):
 
 
 def replay(case, res):
+    if 'scenario' in case:
+        from .. import conc, detsched as D
+        conc.env()
+        sc = case['scenario']
+        r = conc.run(sc, D.replay_chooser(case.get('choices', [])))
+        mp, ms = conc.readahead(sc, r)
+        if ms > sc['b'] + (2 if sc['entry'] in ('pf1', 'stp') else 0) or mp > sc['b'] + 2:
+            res.violation('ran-ahead-of-demand', case,
+                          {'started_minus_delivered': ms, 'pulled_minus_delivered': mp})
+        return
     ld = import_lazy_dataset()
     check(ld, fix_prog(case['prog']), res)
